@@ -437,6 +437,8 @@ def classify(tr, clause, a, b, l):
             scen += " with-report-status=ok"
         what = (f"{clause}: command {x['c']} ({x['kind']}, new value {x['new']}) of push {p}: ref was {x['pre']} before and {x['post']} after "
                 f"the push's operation, client told {x['reported']!r} (unpack {unp}, atomic={atomic}, hook={x['hook']}); {ctxt}")
+    if clause != "AtomicOK" and tr.get("layout", "loose") != "loose":
+        scen += f" layout={tr['layout']}"
     return f"{site}|{clause}|{scen}", what
 
 
